@@ -117,7 +117,7 @@ func putmodCases(thorough bool) {
 			}
 			rules[j] = iec.Rule{DataPartNum: uint8(rs[j][0]), ParityPartNum: uint8(rs[j][1])}
 		}
-		limit := 1 + rnd.Intn(2048)
+		limit := 256 + rnd.Intn(1792) // the link object of <= 3 children must fit the limit
 		ln := rnd.Intn(3 * limit)
 		switch i % 6 {
 		case 0:
